@@ -14,16 +14,21 @@ open Relic.Model Relic.Model.Rec Relic.Lemmas.Bounds
 
 variable (cfg : Cfg)
 
-/-- integer arithmetic: a successful result never has more digits than the configured capacity -/
+/-- integer arithmetic: a successful result never has more digits than the configured capacity (a zero result is the
+    single digit 0, hence `max … 1`; for a positive capacity this is the capacity itself) -/
 theorem bn_results_fit (a b c : Bn) (ha : a.used ≤ cfg.cap) (hb : b.used ≤ cfg.cap) :
-    (bnAdd cfg a b = some c → c.used ≤ cfg.cap) ∧ (bnSub cfg a b = some c → c.used ≤ cfg.cap) ∧
-    (bnMulBasic cfg a b = some c → c.used ≤ cfg.cap) ∧ (bnMulComba cfg a b = some c → c.used ≤ cfg.cap) :=
+    (bnAdd cfg a b = some c → c.used ≤ max cfg.cap 1) ∧ (bnSub cfg a b = some c → c.used ≤ max cfg.cap 1) ∧
+    (bnMulBasic cfg a b = some c → c.used ≤ max cfg.cap 1) ∧ (bnMulComba cfg a b = some c → c.used ≤ max cfg.cap 1) :=
   ⟨bnAdd_fits cfg a b c ha hb, bnSub_fits cfg a b c ha hb, bnMulBasic_fits cfg a b c, bnMulComba_fits cfg a b c⟩
 
 /-- scalar recodings: a successful recoding never produces more digits than the caller's buffer length -/
-theorem recodings_fit (cap k n w : Nat) (ds : List Int) :
+theorem recodings_fit (cap k n w : Nat) (hw : 0 < w) (ds : List Int) :
     (recWin cap k w = some ds → ds.length ≤ cap) ∧ (recNaf cap k w = some ds → ds.length ≤ cap) ∧
-    (recReg cap k n w = some ds → ds.length ≤ cap) :=
-  ⟨recWin_fits cap k w ds, recNaf_fits cap k w ds, recReg_fits cap k n w ds⟩
+    (recReg cap k n w = some ds → ds.length ≤ cap) ∧ (recSlw cap k w = some ds → ds.length ≤ cap) :=
+  ⟨recWin_fits cap k w hw ds, recNaf_fits cap k w ds, recReg_fits cap k n w ds, recSlw_fits cap k w hw ds⟩
+
+/-- joint sparse form: both rows together fit the caller's buffer (the defect repaired by 800d2e7 made this false) -/
+theorem jsf_fits (cap k l : Nat) (a0 a1 : List Int) (h : recJsf cap k l = some (a0, a1)) : a0.length + a1.length ≤ cap :=
+  (recJsf_fits_both cap k l a0 a1 h).1
 
 end Relic.Props.C08
